@@ -425,13 +425,17 @@ def writeBlocks (P : Params) (st : St) (sbnStart : Nat) : Rx (St × Bool) :=
     | none => .ok (st, true)
     | some _ => writeLoop P (st.blocks.length + 1) st sbnStart
 
+/-- `payload_id.source_block_length.unwrap_or(match payload_id.sbn < self.nb_a_large as u32 { true => self.a_large as u32, _ => self.a_small as u32 })` -/
+def sblOf (st : St) (pid : PayloadId) : Nat :=
+  match pid.sbl with
+  | some l => l
+  | none => if pid.sbn < st.nbALarge % U32 then st.aLarge % U32 else st.aSmall % U32
+
 /-- `if !block.initialized { .. }` of `push_to_block2`: source block length, block length, allocation limit,
     `block.init`; `none` = `Err` -/
 def allocBlock (P : Params) (st : St) (o : Oti) (tl : Nat) (pid : PayloadId) (block : Block) : Rx (St × Option Block) :=
   if block.initialized then .ok (st, some block) else
-  let sbl := match pid.sbl with
-    | some l => l
-    | none => if pid.sbn < st.nbALarge % U32 then st.aLarge % U32 else st.aSmall % U32
+  let sbl := sblOf st pid
   let bl : Rx Nat := match pid.sbl with
     | some _ => .ok (sbl * o.e)
     | none => liftRs (Partition.blockLength st.aLarge st.aSmall st.nbALarge tl o.e pid.sbn)
